@@ -1245,4 +1245,111 @@ theorem compile_varNames_nodup {P : Script} {prog : Program} (h : compile P = .o
         · exact visitVarList_distinct ⟨by simp [varNames], by intro n hn; simp [varNames] at hn⟩ h0
       exact ((visitStmts_ext h1).varsDistinct g0).nodup
 
+/-! ### `varIdx` points at the declared variables -/
+
+/-- the name a declaration resource carries -/
+def declName : Resource → Option String
+  | .var _ n => some n
+  | .varMeta _ n _ _ => some n
+  | .varBalance n _ _ => some n
+  | _ => none
+
+def lookupIdx (vi : List (String × Addr)) (n : String) : Option Addr := (vi.find? (·.1 = n)).map (·.2)
+
+/-- every entry of `varIdx` is the address of the declaration resource of that name -/
+def VarIdxOK (st : CState) : Prop :=
+  ∀ n a, lookupIdx st.varIdx n = some a → ∃ r, st.resources[a]? = some r ∧ declName r = some n
+
+theorem Ext.varIdxOK {st st' : CState} (h : Ext st st') (g : VarIdxOK st) : VarIdxOK st' := by
+  intro n a hl
+  rw [h.vars] at hl
+  obtain ⟨r, h1, h2⟩ := g n a hl
+  exact ⟨r, h.get h1, h2⟩
+
+theorem lookupIdx_append (vi : List (String × Addr)) (k n : String) (a : Addr) :
+    lookupIdx (vi ++ [(k, a)]) n = match lookupIdx vi n with | some x => some x | none => if k = n then some a else none := by
+  unfold lookupIdx
+  rw [List.find?_append]
+  cases hf : vi.find? (·.1 = n) with
+  | some x => simp
+  | none =>
+    by_cases hk : k = n
+    · simp [hk]
+    · simp [hk]
+
+theorem visitVar_idxOK {st st' : CState} {d : VarDecl} (g : VarIdxOK st) (h : visitVar st d = .ok st') : VarIdxOK st' := by
+  unfold visitVar at h
+  split at h
+  · cases h
+  · simp only at h
+    split at h
+    · cases h
+    · rename_i addr st1 hr
+      simp only [Except.ok.injEq] at h; subst h
+      have key : ∃ st0, Ext st st0 ∧ ∃ r, (∀ v, r ≠ .const v) ∧ allocRes st0 r = .ok (addr, st1) ∧ declName r = some d.name := by
+        cases ho : d.origin with
+        | none =>
+          simp only [ho] at hr
+          exact ⟨st, Ext.refl _, .var d.ty d.name, (by intro v hv; cases hv), hr, rfl⟩
+        | metaOf acc key =>
+          simp only [ho] at hr
+          split at hr
+          · cases hr
+          · rename_i a c0 st0 ha
+            exact ⟨st0, (visitTyped_ok ha).1, .varMeta d.ty d.name a key, (by intro v hv; cases hv), hr, rfl⟩
+        | balance acc ae =>
+          simp only [ho] at hr
+          split at hr
+          · cases hr
+          · split at hr
+            · cases hr
+            · rename_i a c0 st0 ha
+              split at hr
+              · cases hr
+              · rename_i s c1 st1' hs
+                exact ⟨st1', (visitTyped_ok ha).1.trans (visitTyped_ok hs).1, .varBalance d.name a s, (by intro v hv; cases hv), hr, rfl⟩
+      obtain ⟨st0, he, r, hnc, hal, hname⟩ := key
+      have g0 := he.varIdxOK g
+      have happ : appendResource st0 r = .ok (addr, st1) := by
+        unfold allocRes at hal
+        cases r with
+        | const v => exact absurd rfl (hnc v)
+        | var _ _ => exact hal
+        | varMeta _ _ _ _ => exact hal
+        | varBalance _ _ _ => exact hal
+        | monetary _ _ => exact hal
+      obtain ⟨rfl, rfl⟩ := appendResource_ok happ
+      intro n a hl
+      show ∃ r', (st0.resources ++ [r])[a]? = some r' ∧ declName r' = some n
+      change lookupIdx (st0.varIdx ++ [(d.name, st0.resources.length)]) n = some a at hl
+      rw [lookupIdx_append] at hl
+      cases hf : lookupIdx st0.varIdx n with
+      | some x =>
+        simp only [hf, Option.some.injEq] at hl; subst hl
+        obtain ⟨r', h1, h2⟩ := g0 n x hf
+        exact ⟨r', by rw [List.getElem?_append_left (getElem?_lt h1)]; exact h1, h2⟩
+      | none =>
+        simp only [hf] at hl
+        split at hl
+        · rename_i hk
+          simp only [Option.some.injEq] at hl; subst hl; subst hk
+          exact ⟨r, by simp, hname⟩
+        · cases hl
+
+theorem visitVarList_idxOK {st st' : CState} {ds : List VarDecl} (g : VarIdxOK st) (h : visitVarList st ds = .ok st') : VarIdxOK st' := by
+  induction ds generalizing st with
+  | nil => simp only [visitVarList, Except.ok.injEq] at h; subst h; exact g
+  | cons d rest ih =>
+    simp only [visitVarList] at h
+    split at h
+    · cases h
+    · rename_i st1 h1
+      exact ih (visitVar_idxOK g h1) h
+
+theorem visitVars_idxOK {st' : CState} {ds : List VarDecl} (h : visitVars {} ds = .ok st') : VarIdxOK st' := by
+  unfold visitVars at h
+  split at h
+  · cases h
+  · exact visitVarList_idxOK (by intro n a hl; simp [lookupIdx] at hl) h
+
 end Num
